@@ -19,7 +19,7 @@ import tempfile
 
 HERE = os.path.dirname(os.path.dirname(os.path.abspath(__file__)))
 sys.path.insert(0, os.path.join(HERE, 'tools'))
-from mutants import run, run_tests  # noqa: E402
+from mutants import run, run_tests, fail_oracles  # noqa: E402
 
 REPO = '/repo'
 
@@ -100,7 +100,7 @@ def run_checks(names, tier, extra_props):
             caught, missed = [], []
             for p in props:
                 code, out = run([os.path.join(HERE, 'check'), p, tier], cwd=HERE, env=env)
-                fails = [l.split(' ')[1] for l in out.splitlines() if l.startswith('FAIL')]
+                fails = fail_oracles(out)
                 if code == 1 and any(l.startswith('VIOLATION') for l in out.splitlines()):
                     caught.append({'prop': p, 'oracles': fails[:8]})
                 else:
